@@ -2,7 +2,7 @@
    one write, addressed to the setting's registers, other registers untouched -- is checked on the real classes against
    the simulated inverter). *)
 From Coq Require Import ZArith List Bool String.
-From GW Require Import Prelude PyStr PyFloat Sensors SensorProofs CodecProofs.
+From GW Require Import Prelude PyStr PyFloat Sensors SensorProofs CodecProofs Settings TablesGen SettingsGen SettingsProofs.
 Import ListNotations.
 Open Scope Z_scope.
 
@@ -28,8 +28,51 @@ Theorem C17_decimal : forall scale k, scale = 10 \/ scale = 100 \/ scale = 1000 
   scaled_ok (KDecimal scale) scale true k = true.
 Proof. exact decimal_roundtrip. Qed.
 
+(* ---- end to end on the register-file model of the inverter (Model/Settings.v; shapes of _write_setting / _read_sensor emitted from the
+   current source by tools/ws2v.py): one write request to exactly the setting's register, the value reads back, every other register keeps
+   its word, and the other half of the register of a one-byte setting is kept *)
+Theorem C17_write_read_integer : forall sh r s v, shape_ok sh -> s_kind s = KInteger -> s_size s = 2 -> 0 <= v < 65535 ->
+  exists r', write_setting sh r s (IInt v) = Ok (r', (s_offset s, 1)) /\ read_setting r' s = Ok (VInt v) /\ (forall x, x <> s_offset s -> r' x = r x).
+Proof. exact write_read_integer. Qed.
+
+Theorem C17_write_read_integer_signed : forall sh r s v, shape_ok sh -> s_kind s = KIntegerS -> s_size s = 2 -> -32768 <= v < 32768 ->
+  exists r', write_setting sh r s (IInt v) = Ok (r', (s_offset s, 1)) /\ read_setting r' s = Ok (VInt v) /\ (forall x, x <> s_offset s -> r' x = r x).
+Proof. exact write_read_integer_signed. Qed.
+
+Theorem C17_write_read_byte_high : forall sh r s v, shape_ok sh -> wf_rfile r -> s_kind s = KByteH -> s_size s = 1 -> -128 <= v < 128 ->
+  exists r', write_setting sh r s (IInt v) = Ok (r', (s_offset s, 1)) /\ read_setting r' s = Ok (VInt v) /\
+             (forall x, x <> s_offset s -> r' x = r x) /\ r' (s_offset s) mod 256 = r (s_offset s) mod 256.
+Proof. exact write_read_byte_high. Qed.
+
+Theorem C17_write_read_byte_low : forall sh r s v, shape_ok sh -> wf_rfile r -> s_kind s = KByteL -> s_size s = 1 -> -128 <= v < 128 ->
+  exists r', write_setting sh r s (IInt v) = Ok (r', (s_offset s, 1)) /\ read_setting r' s = Ok (VInt v) /\
+             (forall x, x <> s_offset s -> r' x = r x) /\ r' (s_offset s) / 256 = r (s_offset s) / 256.
+Proof. exact write_read_byte_low. Qed.
+
+Theorem C17_write_read_decimal : forall sh r s scale k, shape_ok sh -> s_kind s = KDecimal scale -> s_size s = 2 ->
+  scale = 10 \/ scale = 100 \/ scale = 1000 -> -32768 <= k < 32768 ->
+  exists r' f, write_setting sh r s (IFloat (PrimFloat.div (float_of_Z k) (float_of_Z scale))) = Ok (r', (s_offset s, 1)) /\
+             (read_setting r' s = Ok (VFloat f) /\ float_eqb f (PrimFloat.div (float_of_Z k) (float_of_Z scale)) = true \/
+              read_setting r' s = Ok (VInt 0) /\ k = 0) /\
+             r' (s_offset s) = k mod 65536 /\ (forall x, x <> s_offset s -> r' x = r x).
+Proof. exact write_read_decimal. Qed.
+
+(* the premises are met by the current source: shapes of ET / DT._write_setting, and sizes / scales of every such setting in the generated tables *)
+Theorem C17_generated_shapes_ok : shape_ok et_ws /\ shape_ok dt_ws.
+Proof. exact generated_shapes_ok. Qed.
+
+Theorem C17_generated_settings_fit : forallb setting_shape_ok modbus_settings = true.
+Proof. exact generated_settings_shape. Qed.
+
 Print Assumptions C17_integer.
 Print Assumptions C17_integer_signed.
 Print Assumptions C17_byte_high.
 Print Assumptions C17_byte_low.
 Print Assumptions C17_decimal.
+Print Assumptions C17_write_read_integer.
+Print Assumptions C17_write_read_integer_signed.
+Print Assumptions C17_write_read_byte_high.
+Print Assumptions C17_write_read_byte_low.
+Print Assumptions C17_write_read_decimal.
+Print Assumptions C17_generated_shapes_ok.
+Print Assumptions C17_generated_settings_fit.
